@@ -725,13 +725,6 @@ class StateEngine(object):
                         {"StateMachineArn": state_machine_arn}
                     )
 
-                """
-                Tidy up self.branch_metadata for current execution_arn.
-                If ExecutionSucceeded we just remove, as we don't have to cater
-                for outstanding terminated branch messages subsequently arriving.
-                """
-                if execution_arn in self.branch_metadata:
-                    del self.branch_metadata[execution_arn]
         
         if self.execution_metrics:
             duration = (execution_detail["stopDate"] - 
@@ -748,18 +741,18 @@ class StateEngine(object):
         self.broadcast_notification(execution_arn, execution_detail, context)
 
         """
-        Tidy up self.branch_metadata for current execution_arn.
-        If ExecutionFailed we need to check for outstanding terminated
-        branch messages subsequently arriving. This acknowledges the events
-        held for the branches, so it is done after the execution record and
-        notification have been handed over.
+        Tidy up self.branch_metadata for current execution_arn. If a Parallel
+        or Map state of this execution has failed (whether the execution then
+        failed, or the failure was caught and it went on to succeed) we need to
+        cater for outstanding terminated branch messages subsequently arriving.
+        This acknowledges the events held for the branches, so it is done after
+        the execution record and notification have been handed over.
         """
-        if execution_failed and execution_arn in self.branch_metadata:
+        if execution_arn in self.branch_metadata:
+            # If it is retained for late events the timeout backstop must just
+            # discard it rather than end this execution a second time.
+            self.branch_metadata[execution_arn].execution_ended = True
             self.check_pending_results(execution_arn)
-            if execution_arn in self.branch_metadata:
-                # Retained for late events, the timeout backstop must just
-                # discard it rather than end this execution a second time.
-                self.branch_metadata[execution_arn].execution_ended = True
 
     def update_execution_history(
             self, state_machine, execution_arn, update_type, details
@@ -951,6 +944,15 @@ class StateEngine(object):
         # Get the dict containing all the branch results for this execution
         all_branch_results = self.branch_metadata[execution_arn].results
 
+        """
+        Whilst the execution is still running (the failure of a Map or Parallel
+        state was caught or is being retried) only the branches of the states
+        that actually failed are cancelled and tidied up: the other Map and
+        Parallel states of the execution, e.g. an enclosing one, carry on.
+        Once the execution has ended everything that is left is tidied up.
+        """
+        execution_ended = self.branch_metadata[execution_arn].execution_ended
+
         #print("check_pending_results:")
         #print(all_branch_results)
         #print()
@@ -967,11 +969,11 @@ class StateEngine(object):
 
         results_pending = False
         for results in all_branch_results.values():
-            if has_terminated:
+            terminated = results.get("terminated")
+            if has_terminated and (terminated or execution_ended):
                 result = results["results"]
                 event_ids = results["ids"]
 
-                terminated = results.get("terminated")
                 if terminated:
                     terminated_range = terminated.split(":")
                     start = int(terminated_range[0])
@@ -1004,12 +1006,13 @@ class StateEngine(object):
                             results_pending = True
 
         for results in all_branch_results.values():
-            event_ids = results["ids"]
-            #print("Acknowledging event_ids:")
-            #print(event_ids)
-            self.acknowledge_event_list(event_ids)
+            if execution_ended or results.get("terminated"):
+                event_ids = results["ids"]
+                #print("Acknowledging event_ids:")
+                #print(event_ids)
+                self.acknowledge_event_list(event_ids)
 
-        if not results_pending:
+        if execution_ended and not results_pending:
             #print("No results pending, deleting self.branch_metadata[execution_arn]")
             del self.branch_metadata[execution_arn]
 
@@ -1126,7 +1129,10 @@ class StateEngine(object):
                 results = branch_results["results"]
                 results[index] = TERMINATED
 
-                if parent_terminated:
+                if parent_terminated and parent_results[parent_index] is not CAUGHT:
+                    # (A CAUGHT slot is left as it is: the event that continues
+                    # that branch after the Catch is still outstanding and will
+                    # mark the slot as terminated itself when it is dropped.)
                     #print("Terminating parent branch {}".format(parent_index))
                     parent_results[parent_index] = TERMINATED
 
@@ -1675,6 +1681,16 @@ class StateEngine(object):
                             error_message = emessage
                         else:
                             catch_matched = True
+
+                            """
+                            The failure of a Map or Parallel state has been
+                            caught: its other branches must make no further
+                            progress, so cancel their pending Tasks and Waits
+                            and acknowledge the events held for them.
+                            """
+                            if ((state_type == "Map" or state_type == "Parallel")
+                                and execution_arn in self.branch_metadata):
+                                self.check_pending_results(execution_arn)
 
                             """
                             If we've caught an error and the current event that
@@ -3257,6 +3273,20 @@ class StateEngine(object):
             data = branch_info["Input"]  # Get saved raw input
 
             if error:
+                if error == "Task.Terminated" and branch_results.get("terminated"):
+                    """
+                    This Map or Parallel state has already failed and that
+                    failure has been dealt with (failed, retried or caught).
+                    This is just one of its cancelled branches reporting that
+                    it has been terminated, which must not fail it again nor
+                    be propagated to any enclosing Map or Parallel state.
+                    If the execution has ended this may have been the last
+                    result that its retained branch metadata was waiting for.
+                    """
+                    if self.branch_metadata[execution_arn].execution_ended:
+                        self.check_pending_results(execution_arn)
+                    return
+
                 # Set range to terminate subsequent branches/iterations
                 branch_results["terminated"] = str(start) + ":" + str(end)
 
